@@ -26,7 +26,7 @@ def joinParts : List (List Char) → List Char
 
 def locChars : Loc → List Char
   | .simple p => partChars p
-  | .compound ps => "join{".toList ++ joinParts (ps.map partChars) ++ ['}']
+  | .compound ps => ['j', 'o', 'i', 'n', '{'] ++ joinParts (ps.map partChars) ++ ['}']
 
 def locToString (l : Loc) : String := String.ofList (locChars l)
 
@@ -47,18 +47,21 @@ def splitFirst (c : Char) : List Char → Option (List Char × List Char)
       | some (a, b) => some (x :: a, b)
       | none => none
 
+/-- the strand of `parse_single_location`: decided by the second-to-last character -/
+def parseStrand (s : List Char) : Option Strand :=
+  match (s.reverse.drop 1).head? with
+  | some '-' => some Strand.rev
+  | some '+' => some Strand.fwd
+  | some '?' => some Strand.zero
+  | _ => if s.contains '(' then none else some Strand.none
+
 /-- `parse_single_location` -/
 def parseSingle (s : List Char) : Option Part := do
   let (beforeColon, afterColon) ← splitFirst ':' s
   let start ← parseInt (beforeColon.drop 1)
   let (endText, _) ← splitFirst ']' afterColon
   let «end» ← parseInt endText
-  let strandText := s.reverse.drop 1 |>.head?
-  let strand ← match strandText with
-    | some '-' => some Strand.rev
-    | some '+' => some Strand.fwd
-    | some '?' => some Strand.zero
-    | _ => if s.contains '(' then none else some Strand.none
+  let strand ← parseStrand s
   pure ⟨start, «end», strand⟩
 
 /-- `combined_location.split(', ')` -/
